@@ -240,3 +240,36 @@ mod tests {
         }
     }
 }
+
+/// Verification hooks (feature `verif`): plain-data view of the concise free state.
+#[cfg(feature = "verif")]
+pub mod verif {
+    use super::*;
+
+    /// per resource: per group: (free whole units, non-zero free fractions sorted by index)
+    pub type ConciseSnap = Vec<Vec<(u32, Vec<(u32, u32)>)>>;
+
+    impl ConciseFreeResources {
+        pub fn verif_snapshot(&self) -> ConciseSnap {
+            self.resources
+                .iter()
+                .map(|state| {
+                    state
+                        .free
+                        .iter()
+                        .map(|g| {
+                            let mut f: Vec<(u32, u32)> = g
+                                .fractions
+                                .iter()
+                                .filter(|(_, v)| **v > 0)
+                                .map(|(k, v)| (k.as_num(), *v))
+                                .collect();
+                            f.sort_unstable();
+                            (g.units, f)
+                        })
+                        .collect()
+                })
+                .collect()
+        }
+    }
+}
